@@ -36,8 +36,8 @@ LATTICE = {
                           log2_rounding=["rnd", "floor"], qnoise_factor=[1.0, 0.5]),
     "quantized_relu_po2": dict(bits=[8, 4], max_value=[None, 2.0], negative_slope=[0, 0.25], quadratic_approximation=[False, True],
                                log2_rounding=["rnd", "floor"], qnoise_factor=[1.0, 0.5]),
-    "quantized_hswish": dict(bits=[8, 6], integer=[0, 2], symmetric=[0, 1], alpha=[None, 2.0], relu_shift=[3, 2],
-                             relu_upper_bound=[6, 4]),
+    "quantized_hswish": dict(bits=[8, 6], integer=[0, 2], symmetric=[0, 1], alpha=[None, 2.0, "auto", "auto_po2"], scale_axis=[None, 0],
+                             qnoise_factor=[1.0, 0.5], relu_shift=[3, 2], relu_upper_bound=[6, 4]),
 }
 
 
@@ -93,6 +93,14 @@ def instances(cls, tier, rng):
         kw["alpha"] = "auto_po2"
       if valid(cls, kw):
         sel.append(kw)
+      if n == "scale_axis":
+        # the axis only matters for a data-dependent scale: the same deviation with every automatic alpha of the class
+        for a_ in lat.get("alpha", []):
+          if isinstance(a_, str):
+            kw2 = dict(kw)
+            kw2["alpha"] = a_
+            if valid(cls, kw2):
+              sel.append(kw2)
   idx = rng.choice(len(allk), size=min(25, len(allk)), replace=False)
   sel += [allk[i] for i in idx]
   return sel
